@@ -873,17 +873,32 @@ if __name__ != "__main__":
 
 def checks(h):
     _setup_process()
-    small_chunks()
-    unit = h.scale(60, 1500)        # examples per weight unit and shard
+    unit = h.scale(100, 2000)       # examples per weight unit and shard (weights sum to 26)
     passes = h.scale(1, 2)          # each pass allows MAX_ROUNDS more collect-then-shrink rounds
+    # (c) quick: one 30 s campaign next to shard 0; thorough: one 8 min campaign next to every shard
+    fuzz = None
+    if h.quick and h.shard == 0:
+        fuzz = FuzzCampaign(30, h.seed, 8)
+    elif not h.quick:
+        fuzz = FuzzCampaign(480, h.seed * 100 + h.shard, 1)
+    if fuzz is not None:
+        import importlib.util
+        if importlib.util.find_spec("atheris") is None:
+            h.inconclusive("atheris_not_installed")
+            fuzz = None
+    if fuzz is not None:
+        fuzz.start()
+    try:
+        def body(recipe):
+            judge(h, recipe)
 
-    def body(recipe):
-        judge(h, recipe)
-
-    for salt, (name, strat, weight) in enumerate(strategies(h)):
-        for k in range(passes):
-            h.hyp(name, strat, body, unit * weight // passes, seed_salt=10 * salt + k,
-                  shrink_budget_s=h.scale(15, 60))
+        for salt, (name, strat, weight) in enumerate(strategies(h)):
+            for k in range(passes):
+                h.hyp(name, strat, body, unit * weight // passes, seed_salt=10 * salt + k,
+                      shrink_budget_s=h.scale(15, 60))
+    finally:
+        if fuzz is not None:
+            fuzz.finish(h)
 
 
 # ------------------------------------------------------------------------------------------------
@@ -892,39 +907,56 @@ def checks(h):
 # The target applies the same by-construction bounds and the same run_once(); every input whose outcome is
 # a crash or a time-out is written to SCRATCH_DIR/findings.json (shortest per outcome class). The parent
 # re-judges those texts with the plain oracle (judge) -- nothing is reported from inside the fuzzer.
-def fuzz_campaign(h, seconds, seed, stride):
-    """Run one campaign in a scratch directory, then re-judge its findings. Returns number of executions."""
-    import json
-    import shutil
-    import subprocess
-    import tempfile
-    scratch = tempfile.mkdtemp(prefix="vt-c07-")
-    try:
+# Only the parser, lexer, context, affine and builtin modules are instrumented (instrumenting every dialect
+# costs ~30 s of start-up).
+_FUZZ_INSTRUMENT = ("xdsl.parser", "xdsl.utils.mlir_lexer", "xdsl.utils.lexer", "xdsl.ir.affine",
+                    "xdsl.dialects.builtin", "xdsl.irdl.declarative_assembly_format", "xdsl.context")
+class FuzzCampaign:
+    """One atheris campaign in a scratch directory; start() returns at once, finish() waits, re-judges the
+    candidate inputs with the plain oracle and removes the scratch directory."""
+
+    def __init__(self, seconds, seed, stride):
+        self.seconds, self.seed, self.stride = int(seconds), int(seed), int(stride)
+        self.scratch = self.proc = self.log = None
+
+    def start(self):
+        import subprocess
+        import tempfile
+        self.scratch = tempfile.mkdtemp(prefix="vt-c07-")
         env = dict(os.environ)
         env["PYTHONPATH"] = os.pathsep.join(p for p in sys.path if p)
-        cmd = [sys.executable, "-m", "vt.props.C07", "--fuzz", scratch, str(int(seconds)), str(int(seed)),
-               str(int(stride))]
+        self.log = open(os.path.join(self.scratch, "fuzz.log"), "wb")
+        cmd = [sys.executable, "-m", "vt.props.C07", "--fuzz", self.scratch, str(self.seconds),
+               str(self.seed), str(self.stride)]
+        self.proc = subprocess.Popen(cmd, env=env, stdout=self.log, stderr=subprocess.STDOUT, cwd=self.scratch)
+
+    def finish(self, h):
+        import json
+        import shutil
+        import subprocess
         try:
-            proc = subprocess.run(cmd, env=env, stdout=subprocess.PIPE, stderr=subprocess.STDOUT,
-                                  timeout=seconds * 3 + 120, cwd=scratch)
-            tail = proc.stdout.decode("utf-8", "replace")[-2000:]
-            rc = proc.returncode
-        except subprocess.TimeoutExpired as e:  # the campaign itself is best effort
-            tail, rc = (e.stdout or b"").decode("utf-8", "replace")[-2000:], "timeout"
-        path = os.path.join(scratch, "findings.json")
-        if not os.path.exists(path):
-            h.inconclusive("atheris_campaign_did_not_report")
-            h.notes.append(f"atheris rc={rc}: {tail[-600:]}")
-            return 0
-        with open(path, encoding="utf-8") as f:
-            data = json.load(f)
-        h.count("atheris_executions", data["executions"])
-        h.count("atheris_candidates", len(data["findings"]))
-        for key in sorted(data["findings"]):
-            judge(h, {"kind": "text", "text": data["findings"][key]})
-        return data["executions"]
-    finally:
-        shutil.rmtree(scratch, ignore_errors=True)
+            try:
+                rc = self.proc.wait(timeout=self.seconds * 4 + 180)
+            except subprocess.TimeoutExpired:   # the campaign is best effort: stop it, keep what it found
+                self.proc.kill()
+                self.proc.wait()
+                rc = "killed"
+            self.log.close()
+            path = os.path.join(self.scratch, "findings.json")
+            if not os.path.exists(path):
+                with open(os.path.join(self.scratch, "fuzz.log"), "rb") as f:
+                    tail = f.read()[-600:].decode("utf-8", "replace")
+                h.inconclusive("atheris_campaign_did_not_report")
+                h.notes.append(f"atheris rc={rc}: {tail}")
+                return
+            with open(path, encoding="utf-8") as f:
+                data = json.load(f)
+            h.count("atheris_executions", data["executions"])
+            h.count("atheris_candidates", len(data["findings"]))
+            for key in sorted(data["findings"]):
+                judge(h, {"kind": "text", "text": data["findings"][key]})
+        finally:
+            shutil.rmtree(self.scratch, ignore_errors=True)
 
 
 def _fuzz_main(scratch, seconds, seed, stride):
@@ -933,7 +965,16 @@ def _fuzz_main(scratch, seconds, seed, stride):
 
     import atheris
     _WALL_BACKSTOP = False
-    with atheris.instrument_imports(include=["xdsl"]):
+    root = os.path.dirname(os.path.abspath(__import__("xdsl").__file__))
+    skip = []
+    for dp, _dn, fn in os.walk(root):
+        for f in fn:
+            if f.endswith(".py"):
+                mod = "xdsl." + os.path.relpath(os.path.join(dp, f), root)[:-3].replace(os.sep, ".")
+                mod = mod[:-9] if mod.endswith(".__init__") else mod
+                if not any(mod == w or mod.startswith(w + ".") for w in _FUZZ_INSTRUMENT):
+                    skip.append(mod)
+    with atheris.instrument_imports(include=["xdsl"], exclude=skip):
         _setup_process()
     corpus_dir = os.path.join(scratch, "corpus")
     os.makedirs(corpus_dir, exist_ok=True)
